@@ -180,8 +180,16 @@ type ostate struct {
 	recvCanceled bool
 	parked       int
 
-	lastAct         time.Duration // last activity of the manager for this name (not external calls)
-	failPending     bool          // a failure is waiting for its retry
+	lastAct     time.Duration // last activity of the manager for this name (not external calls)
+	failPending bool          // a failure is waiting for its retry
+	// untracedAt: instant of a Reconnect that was called while a retry may have
+	// been starting (failure pending, >= RetryBaseDelay since its last trace, nothing
+	// of a new attempt seen yet). The retry loop takes a fresh context only at the top
+	// of an attempt; a Reconnect that lands between that point and the dial makes the
+	// attempt fail before it has called any collaborator - with nil error callbacks it
+	// leaves no trace at all - and the backoff starts again from that instant. The
+	// retry bounds are therefore measured from the later of the two.
+	untracedAt      *time.Duration
 	addSinceFail    bool
 	removesInFlight int
 	callsInFlight   map[int]string // call id -> kind (all kinds, this name)
@@ -194,6 +202,14 @@ type reconnClaim struct {
 	s    *sstate
 	at   time.Duration
 	idx  int
+}
+
+// retryBase is the instant the upper retry bound is measured from.
+func (t *ostate) retryBase() time.Duration {
+	if t.untracedAt != nil && *t.untracedAt > t.lastAct {
+		return *t.untracedAt
+	}
+	return t.lastAct
 }
 
 func (t *ostate) quiet() bool {
@@ -327,10 +343,11 @@ func judgeOverlap(sc *OScenario, trace []Ev) (*stats, error) {
 				}
 			case kRemoveCall:
 				// Clause: failed sessions are retried for as long as the target is managed.
-				if t.failPending && t.parked == 0 && t.removesInFlight == 0 && e.At-t.lastAct > bound+slack {
-					return fail(i, t, "no-retry", "the failure whose last trace is at +%v was not followed by a new attempt although no Remove was called for %v (> RetryMaxDelay = %v)", t.lastAct, e.At-t.lastAct, bound)
+				if t.failPending && t.parked == 0 && t.removesInFlight == 0 && e.At-t.retryBase() > bound+slack {
+					return fail(i, t, "no-retry", "the failure whose last trace is at +%v was not followed by a new attempt although no Remove was called for %v (> RetryMaxDelay = %v)", t.retryBase(), e.At-t.retryBase(), bound)
 				}
 				t.failPending = false
+				t.untracedAt = nil
 				t.removesInFlight++
 				t.lin.call(e.Call, 'R')
 				switch {
@@ -346,6 +363,12 @@ func judgeOverlap(sc *OScenario, trace []Ev) (*stats, error) {
 			case kReconnectCall:
 				if t.recvCallAt != nil && !t.recvCanceled && t.recvStream != nil {
 					reconnAsked[e.Call] = &reconnClaim{name: t.name, s: t.recvStream, at: e.At, idx: i}
+				}
+				if t.failPending && !t.dialing && t.recvCallAt == nil && e.At-t.retryBase()+slack >= minDelay {
+					// see ostate.untracedAt
+					at := e.At
+					t.untracedAt = &at
+					st.label("reconnect-where-a-retry-may-be-starting")
 				}
 			}
 		case kAddRet, kRemoveRet, kReconnectRet:
@@ -411,10 +434,10 @@ func judgeOverlap(sc *OScenario, trace []Ev) (*stats, error) {
 			}
 			t.dialing = true
 			if t.failPending {
-				gap := e.At - t.lastAct
-				if gap > bound+slack {
-					return fail(i, t, "retry-too-late", "next attempt starts %v after the last trace of the failed one (+%v); the bound is RetryMaxDelay = %v", gap, t.lastAct, bound)
+				if late := e.At - t.retryBase(); late > bound+slack {
+					return fail(i, t, "retry-too-late", "next attempt starts %v after the last trace of the failed one (+%v); the bound is RetryMaxDelay = %v", late, t.retryBase(), bound)
 				}
+				gap := e.At - t.lastAct
 				if !t.addSinceFail && gap+slack < minDelay {
 					return fail(i, t, "retry-without-backoff", "next attempt starts %v after the last trace of the failed one (+%v); the smallest backoff interval is RetryBaseDelay = %v", gap, t.lastAct, minDelay)
 				}
@@ -425,6 +448,7 @@ func judgeOverlap(sc *OScenario, trace []Ev) (*stats, error) {
 				}
 			}
 			t.failPending = false
+			t.untracedAt = nil
 			t.lastAct = e.At
 		case kDialResult:
 			t.dialing = false
@@ -538,6 +562,7 @@ func judgeOverlap(sc *OScenario, trace []Ev) (*stats, error) {
 				st.label("stream-error")
 			case "ctx":
 				st.label("stream-cancelled")
+				st.label("stream-cancelled:" + errShape(e.Err))
 			}
 		case kConnect:
 			if t.cur == nil || t.cur.msgs == 0 {
